@@ -51,12 +51,17 @@ def sendStr (b : Bool) : String := if b then "Ok" else "Err(SendErr)"
 def spawnRetStr : SpawnRet → String
   | .ok => "Ok" | .killed => "Err(killed)" | .nolink => "Err(nolink)"
   | .startup p n => s!"Err(startup:{if p then "panic" else "err"}-{n})"
+  | .registered => "Err(registered)"
+
+def callResStr : CallRes → String
+  | .pending => "Pending" | .success v => s!"Success({v})" | .senderError => "SenderError"
+  | .sendErr => "Err(SendErr)"
 
 /-- The note the harness prints for this output of actor `a` (none for silent ones). -/
 def renderOut (a : Nat) : Out → Option String
   | .ev (.enter cb arg) =>
     let t := match arg with
-      | .none => "" | .msg m => s!" {m}" | .sup e => " " ++ supEvStr e
+      | .none => "" | .msg m => s!" {m}" | .sup e => " " ++ supEvStr e | .call k => s!" call{k}"
     some s!"enter {a} {cbName cb}{t}"
   | .ev (.tick cb) => some s!"tick {a} {cbName cb}"
   | .ev (.exit cb r) => some s!"exit {a} {cbName cb} {resStr r}"
@@ -68,6 +73,11 @@ def renderOut (a : Nat) : Out → Option String
   | .ev (.spawnRet r) => some s!"ret {spawnRetStr r}"
   | .ev (.emit to e) => some s!"emit {to} {supEvStr e}"
   | .ev (.join r) => some s!"join {a} {match r with | .ok => "Ok" | .cancelled => "Cancelled" | .panic => "Panic"}"
+  | .ev (.fxJoin g) => some s!"fx join {g}"
+  | .ev (.fxReply k v ok) => some s!"fx reply {k} {v} {if ok then "Ok" else "NoPort"}"
+  | .ev (.fxForget k ok) => some s!"fx forget {k} {if ok then "Ok" else "NoPort"}"
+  | .ev (.callRet k r) => some s!"call {k} {callResStr r}"
+  | .ev (.waitRet w ready) => some s!"wait {w} {if ready then "Ready" else "Pending"}"
   | .ev _ => none
   | .note s => some s
   | .eff _ => none
@@ -76,19 +86,31 @@ def statusStr : Status → String
   | .unstarted => "Un" | .starting => "St" | .running => "Ru" | .upgrading => "Up"
   | .draining => "Dr" | .stopping => "Sg" | .stopped => "Sd"
 
-def renderWorld (w : World) : String :=
+def sortNats (l : List Nat) : List Nat := (l.toArray.qsort (· < ·)).toList
+
+def renderWorld (w : World) (names groups : List String) : String :=
   let sts := w.actors.filterMap fun a =>
     if a.phase = .fresh then none
-    else some s!"{a.id}:{statusStr a.status}/{match a.sup with | some p => toString p | none => "-"}/{(a.kids.getD []).length}"
+    else
+      let kids := sortNats (a.kids.getD [])
+      some s!"{a.id}:{statusStr a.status}/{match a.sup with | some p => toString p | none => "-"}/{showNats kids}"
   let run := w.actors.filterMap fun a => if a.phase.isTask && a.woken then some (toString a.id) else none
   let sts := if sts.isEmpty then "-" else " ".intercalate sts
   let run := if run.isEmpty then "-" else ",".intercalate run
-  s!"{sts} | run={run}"
+  let nameT := names.map fun n =>
+    match w.actors.find? (fun a => a.nameHeld && a.name == some n) with
+    | some a => s!"{n}={a.id}"
+    | none => s!"{n}=-"
+  let groupT := groups.map fun g =>
+    s!"{g}={showNats ((w.actors.filter (fun a => a.groups.contains g)).map (·.id))}"
+  let tabs := nameT ++ groupT
+  let tabs := if tabs.isEmpty then "-" else " ".intercalate tabs
+  s!"{sts} | run={run} | {tabs}"
 
-def renderLine (w : World) (own : List WOut) : String :=
+def renderLine (w : World) (names groups : List String) (own : List WOut) : String :=
   let notes := own.filterMap fun (a, o) => renderOut a o
   let notes := if notes.isEmpty then "-" else "; ".intercalate notes
-  s!"{notes} | {renderWorld w}"
+  s!"{notes} | {renderWorld w names groups}"
 
 /-! ### parsing ops -/
 
@@ -100,6 +122,9 @@ def parseFx? (t : String) : Option Fx :=
   | ["stopself"] => some (.stopSelf none)
   | ["stopself", r] => some (.stopSelf (userReason r))
   | ["killself"] => some .killSelf
+  | ["join", g] => some (.joinGroup g)
+  | ["reply", k, v] => do pure (.reply (← k.toNat?) (← v.toNat?))
+  | ["forget", k] => k.toNat?.map .forget
   | _ => none
 
 def parseTerm? (t : String) : Option Term :=
@@ -121,12 +146,20 @@ def parseSeg? (ts : List String) : Option Seg :=
 def parseOp? (line : String) : Option Op :=
   match words line with
   | ["case", _] => some .case
-  | ["spawn", a, sup] => do
+  | ["spawn", a, sup, name] => do
     let a ← a.toNat?
+    let name ← match name.splitOn "=" with
+      | ["name", "-"] => some none
+      | ["name", n] => some (some n)
+      | _ => none
     match sup.splitOn "=" with
-    | ["sup", "-"] => pure (.spawn a none)
-    | ["sup", p] => do let p ← p.toNat?; pure (.spawn a (some p))
+    | ["sup", "-"] => pure (.spawn a none name)
+    | ["sup", p] => do let p ← p.toNat?; pure (.spawn a (some p) name)
     | _ => none
+  | ["wait", w, a] => do pure (.wait (← w.toNat?) (← a.toNat?))
+  | ["pollwait", w] => w.toNat?.map .pollWait
+  | ["call", k, a] => do pure (.call (← k.toNat?) (← a.toNat?))
+  | ["pollcall", k] => k.toNat?.map .pollCall
   | ["pollspawn", a] => a.toNat?.map .pollSpawn
   | ["dropspawn", a] => a.toNat?.map .dropSpawn
   | ["poll", a] => a.toNat?.map .poll
@@ -169,6 +202,7 @@ def parseSpawnRet? (t : String) : Option SpawnRet :=
   if t == "Ok" then some .ok
   else if t == "Err(killed)" then some .killed
   else if t == "Err(nolink)" then some .nolink
+  else if t == "Err(registered)" then some .registered
   else match t.splitOn "startup:" with
     | ["Err(", rest] =>
       match (rest.splitOn ")") with
@@ -177,13 +211,34 @@ def parseSpawnRet? (t : String) : Option SpawnRet :=
     | _ => none
 
 /-- Events (tagged by actor) that one note of the implementation stands for; `none` = unparsable. -/
-def noteEvents (op : Op) (note : String) : Option (List (Nat × Ev)) :=
-  let tgt : Nat := match op.target with | some (a, _) => a | none => 0
+def parseCallRes? (t : String) : Option CallRes :=
+  if t == "Pending" then some .pending
+  else if t == "SenderError" then some .senderError
+  else if t == "Err(SendErr)" then some .sendErr
+  else match t.splitOn "Success(" with
+    | ["", rest] => match rest.splitOn ")" with
+      | [v, ""] => v.toNat?.map .success
+      | _ => none
+    | _ => none
+
+/-- The actor an op is about, from the op line and the driver's own wait / call tables
+(filled from `wait w a` / `call k a` op lines). -/
+def opActor (waits calls : List (Nat × Nat)) : Op → Nat
+  | .case => 0
+  | .spawn a _ _ | .pollSpawn a | .dropSpawn a | .poll a | .abort a | .resume a _ | .send a _
+  | .stop a _ | .kill a | .drain a | .wait _ a | .call _ a => a
+  | .pollWait w => ((waits.find? (·.1 = w)).map (·.2)).getD 0
+  | .pollCall k => ((calls.find? (·.1 = k)).map (·.2)).getD 0
+
+def noteEvents (tgt : Nat) (op : Op) (note : String) : Option (List (Nat × Ev)) :=
   match words note with
   | "enter" :: a :: cb :: rest => do
     let a ← a.toNat?; let cb ← cbOf? cb
     let arg ← match cb, rest with
-      | .handle, [m] => m.toNat?.map Arg.msg
+      | .handle, [m] =>
+        match m.splitOn "call" with
+        | ["", k] => k.toNat?.map Arg.call
+        | _ => m.toNat?.map Arg.msg
       | .sup, r => (parseSupEv? r).map Arg.sup
       | _, [] => some Arg.none
       | _, _ => none
@@ -200,7 +255,7 @@ def noteEvents (op : Op) (note : String) : Option (List (Nat × Ev)) :=
     | .stop a r => pure [(a, .stopRet false (.ofUser r) (x == "Ok"))]
     | .kill a => pure [(a, .killRet false (x == "Ok"))]
     | .drain a => pure [(a, .drainRet (x == "Ok"))]
-    | .spawn a _ | .pollSpawn a => do pure [(a, .spawnRet (← parseSpawnRet? x))]
+    | .spawn a _ _ | .pollSpawn a => do pure [(a, .spawnRet (← parseSpawnRet? x))]
     | _ => none
   | "emit" :: p :: rest => do
     let p ← p.toNat?
@@ -211,28 +266,55 @@ def noteEvents (op : Op) (note : String) : Option (List (Nat × Ev)) :=
     let r ← (if r == "Ok" then some JoinRes.ok else if r == "Cancelled" then some JoinRes.cancelled
              else if r == "Panic" then some JoinRes.panic else none)
     pure [(a, .join r)]
-  | ["notask"] | ["nospawn"] | ["noopen"] | ["busy"] | ["respawn"] => pure []
+  | ["fx", "join", g] => pure [(tgt, .fxJoin g)]
+  | ["fx", "reply", k, v, x] => do pure [(tgt, .fxReply (← k.toNat?) (← v.toNat?) (x == "Ok"))]
+  | ["fx", "forget", k, x] => do pure [(tgt, .fxForget (← k.toNat?) (x == "Ok"))]
+  | ["call", k, r] => do pure [(tgt, .callRet (← k.toNat?) (← parseCallRes? r))]
+  | ["wait", w, r] => do pure [(tgt, .waitRet (← w.toNat?) (r == "Ready"))]
+  | ["notask"] | ["nospawn"] | ["noopen"] | ["busy"] | ["respawn"] | ["nocell"] | ["nowait"] | ["nocall"]
+  | ["bad-op"] => pure []
   | _ => none
 
-/-- Observed supervisor per actor from the status field `a:St/sup/k …`. -/
-def parseSups (field : String) : List (Nat × Option Nat) :=
+def statusOf? : String → Option Status
+  | "Un" => some .unstarted | "St" => some .starting | "Ru" => some .running | "Up" => some .upgrading
+  | "Dr" => some .draining | "Sg" => some .stopping | "Sd" => some .stopped | _ => none
+
+structure ObsActor where
+  id : Nat
+  status : Status
+  sup : Option Nat
+  kids : List Nat
+
+/-- Status field `a:St/sup/kids …` of the observation. -/
+def parseStatuses (field : String) : List ObsActor :=
   (words field).filterMap fun w =>
     match w.splitOn ":" with
     | [a, rest] =>
       match rest.splitOn "/" with
-      | [_, sup, _] => a.toNat?.map fun a => (a, sup.toNat?)
+      | [st, sup, kids] => do
+        let a ← a.toNat?
+        let st ← statusOf? st
+        pure { id := a, status := st, sup := sup.toNat?, kids := (natList? kids).getD [] }
       | _ => none
+    | _ => none
+
+/-- Table field `n1=0 g1=0,2 …`: (key, members). -/
+def parseTables (field : String) : List (String × List Nat) :=
+  (words field).filterMap fun w =>
+    match w.splitOn "=" with
+    | [k, v] => some (k, (natList? v).getD [])
     | _ => none
 
 /-! ### driver state -/
 
-inductive Prop3 | c01 | c03 | c04
+inductive Prop3 | c01 | c03 | c04 | residue
   deriving DecidableEq
 
 structure Mon where
   c01 : Except String C01.St := .ok {}
   c03 : Except String C03.St := .ok {}
   c04 : Except String C04.St := .ok {}
+  res : Except String Residue.St := .ok {}
   /-- last observed supervisor (status field) -/
   sup : Option Nat := none
 
@@ -242,6 +324,14 @@ structure St where
   w : World := {}
   mons : Array Mon := #[]
   hist : UInt64 := 0
+  /-- names / groups mentioned so far in this case (order of first mention) -/
+  names : List String := []
+  groups : List String := []
+  /-- from the op lines: wait id → target, call id → callee -/
+  waits : List (Nat × Nat) := []
+  calls : List (Nat × Nat) := []
+  /-- previous observation (for the name-clash frame clause) -/
+  prev : String := ""
 
 def feed {σ : Type} (next : σ → Ev → Except String σ) (m : Except String σ) (e : Ev) :
     Except String σ × Option String :=
@@ -258,21 +348,39 @@ def feedEv (which : Prop3) (mons : Array Mon) (a : Nat) (e : Ev) : Array Mon × 
   let (c01, f1) := feed C01.next m.c01 e
   let (c03, f3) := feed C03.next m.c03 e
   let (c04, f4) := feed (C04.next a) m.c04 e
+  let (res, f8) := feed Residue.next m.res e
   let fails := match which with
-    | .c01 => f1.toList | .c03 => f3.toList | .c04 => f4.toList
-  (mons.set! a { m with c01, c03, c04 }, fails)
+    | .c01 => f1.toList | .c03 => f3.toList | .c04 => f4.toList | .residue => f8.toList
+  (mons.set! a { m with c01, c03, c04, res }, fails)
 
 def hasSub (s sub : String) : Bool := (s.splitOn sub).length > 1
+
+def addNew (l : List String) (x : String) : List String := if l.contains x then l else l ++ [x]
+
+def afterBar (s : String) : String :=
+  match s.splitOn " | " with
+  | _ :: rest => " | ".intercalate rest
+  | [] => ""
 
 def step (which : Prop3) (st : St) (opLine impl : String) : St × StepOut :=
   match parseOp? opLine with
   | none => (st, { model := "bad-op" })
   | some op =>
+    let st := if op = .case then ({ hist := st.hist } : St) else st
+    -- names / groups are known to the harness from the op line
+    let names := match op with
+      | .spawn _ _ (some n) => addNew st.names n
+      | _ => st.names
+    let groups := match op with
+      | .resume _ sg => sg.fx.foldl (fun acc f => match f with | .joinGroup g => addNew acc g | _ => acc) st.groups
+      | _ => st.groups
+    let waits := match op with | .wait w a => st.waits ++ [(w, a)] | _ => st.waits
+    let calls := match op with | .call k a => st.calls ++ [(k, a)] | _ => st.calls
     let (w', own, _others) := st.w.step op
-    let model := renderLine w' own
+    let model := renderLine w' names groups own
     let hist := if op = .case then 0 else mixHash st.hist (hash opLine)
-    let st := if op = .case then { st with mons := #[] } else st
     -- implementation-derived events
+    let tgt := opActor waits calls op
     let fields := impl.splitOn " | "
     let notes := match fields with
       | n :: _ => if n == "-" then [] else n.splitOn "; "
@@ -282,33 +390,60 @@ def step (which : Prop3) (st : St) (opLine impl : String) : St × StepOut :=
       | .dropSpawn a => if notes.contains "nospawn" then [] else [(a, .dropped)]
       | _ => []
     let (evsR, bad) := notes.foldl (fun (acc : List (Nat × Ev) × Bool) n =>
-      match noteEvents op n with
+      match noteEvents tgt op n with
       | some l => (acc.1 ++ l, acc.2)
       | none => (acc.1, true)) (pre, false)
     let (mons, fails) := evsR.foldl (fun (acc : Array Mon × List String) (a, e) =>
       let (m, f) := feedEv which acc.1 a e
       (m, acc.2 ++ f)) (st.mons, [])
-    -- observed supervisors (status field), fed after the notes
-    let sups := match fields with
-      | _ :: f :: _ => parseSups f
+    -- observed supervisors (status field), fed after the notes; then the snapshot of every actor
+    let obs := match fields with
+      | _ :: f :: _ => parseStatuses f
       | _ => []
-    let (mons, fails) := sups.foldl (fun (acc : Array Mon × List String) (a, p) =>
-      let mons := if a < acc.1.size then acc.1 else acc.1 ++ Array.replicate (a + 1 - acc.1.size) (default : Mon)
-      if mons[a]!.sup = p then (mons, acc.2)
-      else
-        let mons := mons.set! a { mons[a]! with sup := p }
-        let (m, f) := feedEv which mons a (.supIs p)
-        (m, acc.2 ++ f)) (mons, fails)
-    let pfx := match which with | .c01 => "c01" | .c03 => "c03" | .c04 => "c04"
+    let tabs := match fields with
+      | _ :: _ :: _ :: f :: _ => parseTables f
+      | _ => []
+    let (mons, fails) := obs.foldl (fun (acc : Array Mon × List String) o =>
+      let mons := if o.id < acc.1.size then acc.1 else acc.1 ++ Array.replicate (o.id + 1 - acc.1.size) (default : Mon)
+      let (mons, fails) :=
+        if mons[o.id]!.sup = o.sup then (mons, acc.2)
+        else
+          let mons := mons.set! o.id { mons[o.id]! with sup := o.sup }
+          let (m, f) := feedEv which mons o.id (.supIs o.sup)
+          (m, acc.2 ++ f)
+      let sn : Snap := {
+        status := o.status, sup := o.sup,
+        inKids := obs.any (fun p => p.kids.contains o.id),
+        nameHeld := tabs.any (fun t => names.contains t.1 && t.2 == [o.id]),
+        ngroups := (tabs.filter (fun t => groups.contains t.1 && t.2.contains o.id)).length }
+      let (m, f) := feedEv which mons o.id (.snap sn)
+      (m, fails ++ f)) (mons, fails)
+    let pfx := match which with | .c01 => "c01" | .c03 => "c03" | .c04 => "c04" | .residue => "residue"
     let fails := if bad then fails ++ [pfx ++ ".unparsable"] else fails
+    -- residue oracle, driver-level clauses about the registry: a name that the implementation showed as free
+    -- can be taken; a name clash leaves every observable field as it was
+    let fails := match which, op with
+      | .residue, .spawn _ _ (some n) =>
+        let prevTabs := match st.prev.splitOn " | " with
+          | _ :: _ :: _ :: f :: _ => parseTables f
+          | _ => []
+        let wasFree := !(prevTabs.any (fun t => t.1 == n && !t.2.isEmpty))
+        let clash := notes.contains "ret Err(registered)"
+        fails ++ (if clash && wasFree then ["residue.name-not-reusable"] else [])
+              ++ (if !clash && !wasFree then ["residue.clash-not-detected"] else [])
+              ++ (if clash && !(afterBar impl == afterBar st.prev || st.names.contains n == false) then ["residue.clash-changed-state"] else [])
+      | _, _ => fails
     -- non-trivial: the op reached the property's interesting branch
-    let tgtA : Option Actor := op.target.map fun (a, _) => st.w.get a
+    let tgtA : Option Actor := if op = .case then none else some (st.w.get tgt)
     let filled : Nat := match tgtA with
       | some a => (if a.sigVal then 1 else 0) + (if a.stopVal.isSome then 1 else 0)
                   + (if a.supQ.isEmpty then 0 else 1) + (if a.msgQ.isEmpty then 0 else 1)
       | none => 0
     let openCb : Bool := match tgtA with | some a => a.phase.openCb.isSome | none => false
     let isPoll := match op with | .poll _ | .pollSpawn _ => true | _ => false
+    let failedSpawn : Bool := match tgtA with
+      | some a => a.phase = .done && !a.notifyOnCancel
+      | none => false
     let nontrivial := match which with
       | .c01 => hasSub impl "cancelled" || hasSub impl " err:" || hasSub impl " panic:"
                 || hasSub impl "post_stop" || hasSub impl "enter"
@@ -316,7 +451,11 @@ def step (which : Prop3) (st : St) (opLine impl : String) : St × StepOut :=
                 || ((match op with | .kill _ | .stop _ _ => true | _ => false) && hasSub impl "ret Ok" && (openCb || filled ≥ 1))
                 || hasSub impl "fx killself Ok" || hasSub impl "fx stopself"
       | .c04 => hasSub impl "emit" || hasSub impl "ret Err(" || hasSub impl "join" || hasSub impl "cancelled"
-    ({ w := w', mons, hist }, { model, oracle := fails, nontrivial, key := some (toString hist) })
+      | .residue => ((match op with | .spawn _ _ _ | .pollSpawn _ => true | _ => false) && hasSub impl "ret Err(")
+                || ((match op with | .dropSpawn _ => true | _ => false) && !hasSub impl "nospawn")
+                || failedSpawn
+    ({ w := w', mons, hist, names, groups, waits, calls, prev := impl },
+     { model, oracle := fails, nontrivial, key := some (toString hist) })
 
 def run (which : Prop3) (ops impl : Array String) : IO Tally :=
   replay ({} : St) (step which) ops impl
